@@ -565,6 +565,14 @@ func (c *clusterClient) pick(ctx context.Context, slot uint16, toReplica bool) (
 }
 
 func (c *clusterClient) redirectOrNew(addr string, prev conn, slot uint16, mode RedirectMode) conn {
+	if len(addr) > 1 && addr[0] == ':' && prev != nil {
+		// A redirect without a host ("MOVED 3999 :6381") comes from a node that does not know the endpoint of the
+		// target: the target is reachable at the endpoint of the node that answered, on the given port. This is what
+		// parseEndpoint already does for empty endpoints in CLUSTER SLOTS / CLUSTER SHARDS.
+		if host, _, err := net.SplitHostPort(prev.Addr()); err == nil {
+			addr = net.JoinHostPort(host, addr[1:])
+		}
+	}
 	c.mu.RLock()
 	cc := c.conns[addr]
 	c.mu.RUnlock()
